@@ -1,4 +1,6 @@
 import Vanguard.Lemmas.Headers
+import Vanguard.Lemmas.TargetHeaders
+import Vanguard.Model.Run
 /-!
   C02 — Backend sees only valid requests in a protocol, codec and compression it accepts.
 
@@ -6,7 +8,12 @@ import Vanguard.Lemmas.Headers
   configuration, client form, codec and compression: the target protocol is one the service accepts,
   the target codec is one of its codecs, the target request compression is one of its compressions
   or none; and whatever of the client's triple is acceptable is kept rather than converted.
-  The well-formedness of what the handler then receives (request line, content-type, control
+  Also proved, for every request that is converted (`transcodeRun`, any client, script and body): the
+  backend request's **Content-Type is exactly the one the negotiated protocol and codec prescribe**
+  (one value, whatever the client sent: `backend_content_type`), and a negotiated request compression
+  is announced in the target protocol's own header with exactly its name (`backend_encoding_header`);
+  no control header of the client's own protocol is left in the headers handed on (`no_leftover_control_headers`).
+  The rest of the well-formedness of what the handler then receives (request line, content-type, control
   headers, envelopes with legal flags and exact lengths, compressed flag only under a declared
   compression, no contradicting left-over control header) is `oracleC02`, evaluated on every
   implementation observation, next to the field-by-field comparison with the model (`bm bp bq bh br`).
@@ -108,5 +115,39 @@ theorem no_unbound_rest_target (m : MethodConf) (c : ClientForm) (codec comp : B
     subst h
     simp only [serverForm_proto]
     simpa using hr
+
+/-- **Content type of the backend request.** -/
+theorem backend_content_type (w : World) (sc : Scenario) (o : Op) (pl : HandlePlan) (st : St)
+    (first : Option (Bytes × Bool)) (ct : Bytes) (h : o.sform.contentType o.scodec = some ct) :
+    (transcodeRun w sc o pl st first).backend.headers.values (s "Content-Type") = [ct] := by
+  unfold transcodeRun
+  simp only
+  exact target_content_type o.sform _ o.headers ct h
+
+/-- **Declared compression of the backend request.** -/
+theorem backend_encoding_header (w : World) (sc : Scenario) (o : Op) (pl : HandlePlan) (st : St)
+    (first : Option (Bytes × Bool)) (k z : Bytes) (hk : o.sform.encodingHeader = some k)
+    (hz : o.sReqComp = some z) (hne : z.isEmpty = false) :
+    (transcodeRun w sc o pl st first).backend.headers.values k = [z] := by
+  unfold transcodeRun
+  simp only
+  have := target_encoding_header o.sform
+    { o.reqMeta with codec := o.scodec, compression := o.sReqComp.getD [],
+                     acceptCompression := intersection w.knownCompression o.reqMeta.acceptCompression } o.headers k hk
+    (by simp [hz, hne])
+  simpa [hz] using this
+
+/-- **No left-over control header**: after validation the headers handed on contain no control header
+    of the client's own protocol and no `Content-Encoding` / `Accept-Encoding` / `Content-Length`, so the
+    target protocol's headers added afterwards cannot be contradicted by them. -/
+theorem no_leftover_control_headers (w : World) (t : TConf) (r : Req) (o : Op) (hv : validate w t r = .ok o) :
+    (∀ k ∈ o.cform.ownControlNames, o.headers.has k = false) ∧
+    o.headers.has (s "Content-Encoding") = false ∧ o.headers.has (s "Accept-Encoding") = false ∧
+    o.headers.has (s "Content-Length") = false :=
+  validate_removes_own_controls w t r o hv
+
+/-- Non-vacuity: the content types and encoding headers of the four RPC target forms. -/
+example : ServerForm.grpcWeb.contentType (s "proto") = some (s "application/grpc-web+" ++ s "proto") := rfl
+example : ServerForm.connectUnary.encodingHeader = some (s "Content-Encoding") := rfl
 
 end Vanguard.C02
